@@ -335,7 +335,11 @@ def near_copy(draw, t):
         else:
             new = ("py", draw(st.sampled_from([x for x in ("True", "False", "None") if x != node[1]])))
     elif k == "un":
-        new = node[2]
+        if node[2][0] == "num" and draw(st.booleans()):
+            # -1 and -2 are different numbers with the same hash in CPython
+            new = ("un", node[1], ("num", {"1": "2", "2": "1"}.get(node[2][1], "1" if node[2][1] != "1" else "2")))
+        else:
+            new = node[2]
     else:
         new = ("bin", "+", node, ("num", "1"))
     return _replace(t, path, new)
@@ -451,6 +455,9 @@ def judge(ctx, case):
         return
     if case.get("kind") == "cmp_chain":
         judge_cmp_chain(ctx, case)
+        return
+    if case.get("kind") == "twins":
+        twin_pairs(ctx)
         return
     t = _tup(case["tree"])
     if integer_tower(t) or (case.get("other") is not None and integer_tower(_tup(case["other"]))):
@@ -589,8 +596,34 @@ def _kf_pow(case, clause, detail):  # pylint: disable=unused-argument
 KNOWN_CLASSES = {"unary_or_chained_power": _kf_pow, "comparison_chain": _kf_cmp_chain}
 
 
+TWINS = [("x ** -1", "x ** -2"), ("rec(x, -1)", "rec(x, -2)"), ("rec(x, k=-1)", "rec(x, k=-2)"), ("x - 1", "x - 2"), ("rec(1)", "rec(True)"),
+         ("rec(0)", "rec(False)"), ("rec(1)", "rec(1.0)"), ("rec('a')", 'rec("a")'), ("rec(-1.0)", "rec(-2.0)"), ("rec(x, k=1)", "rec(x, k=1, j=None)"),
+         ("rec(x)", "rec(x, k=3)"), ("x + z", "z + x"), ("rec(None)", "rec(0)"), ("rec('1')", "rec(1)"), ("x * -1", "x * -2"), ("rec(-1, -2)", "rec(-2, -1)")]
+
+
+def twin_pairs(ctx):
+    """Pairs of calls that are different calls although something about them coincides (equal hashes of -1 and -2 in
+    CPython, equal values of 1 / True / 1.0, the same characters between other quotes): two terms, in either order."""
+    for a, b in TWINS:
+        for first, second in ((a, b), (b, a)):
+            for w in ("probe", "I"):
+                formula = f"y ~ 0 + {w}({first}) + {w}({second})"
+                case = {"kind": "twins", "formula": formula}
+                ctx.count(formula, True, ["twin_pair"], sample={"formula": formula}, stratum="twin_pair")
+                try:
+                    with core.Guard():
+                        two = lib_design(formula, Recorder())
+                except Exception as e:  # pylint: disable=broad-except
+                    ctx.reject(e)
+                    continue
+                if len(two.common.terms) != 2:
+                    ctx.fail("name", case, f"different calls {w}({first}) and {w}({second}) are one term: {list(two.common.terms)}", "different_calls")
+
+
 def _worker(ctx, arg):
     shard, n = arg
+    if shard == 0:
+        twin_pairs(ctx)
     core.run_hypothesis(ctx, case_strategy(), judge, n, shard=shard)
     core.run_hypothesis(ctx, comparison_chain(), judge, max(20, n // 20), shard=shard, salt=7)
 
